@@ -158,6 +158,17 @@ class LineSum(AbsVal):
         return f"{self.line!r}+{self.nl!r}"
 
 
+_WS_ALL = None
+
+
+def _all_whitespace() -> set:
+    global _WS_ALL
+    if _WS_ALL is None:
+        import sys
+        _WS_ALL = {chr(c) for c in range(sys.maxunicode + 1) if chr(c).isspace()}
+    return _WS_ALL
+
+
 class Slice(AbsVal):
     """``bibstr[lo:hi]`` with optional normalisations applied (strip / lower)."""
 
@@ -175,6 +186,11 @@ class Slice(AbsVal):
             return self if (self.ops and self.ops[-1] == "strip") else Slice(self.lo, self.hi, self.ops + ("strip",))
         if name in ("lower", "upper", "rstrip", "lstrip", "casefold") and not args:
             return Slice(self.lo, self.hi, self.ops + (name,))
+        if name in ("strip", "lstrip", "rstrip") and len(args) == 1 and (args[0] is None or isinstance(args[0], str)) and not kwargs:
+            # an explicit character set: the same operation as the plain one exactly when the set is all of Unicode's white space
+            if args[0] is None or set(args[0]) == _all_whitespace():
+                return self.call_method(it, name, [], {})
+            return Slice(self.lo, self.hi, self.ops + (f"{name}[{''.join(sorted(set(args[0])))!r}]",))
         if name in ("__deepcopy__", "__copy__"):
             return self
         if name == "__len__":
@@ -186,7 +202,13 @@ class Slice(AbsVal):
             return self
         if name in ("splitlines", "split"):
             return SliceParts(self, name, tuple(args))
+        if name in ("startswith", "endswith", "isspace", "isalpha", "isdigit", "isalnum", "isupper", "islower", "__contains__"):
+            # a question about text the analysis does not know: both answers are explored
+            return it.fork_bool(("slice-pred", repr(self), name, repr(args)), f"{self!r}.{name}({', '.join(map(repr, args))})")
         return NotImplemented
+
+    def truth(self, it):
+        return it.fork_bool(("slice-nonempty", repr(self)), f"bool({self!r})")
 
     def subscript(self, it, idx):
         return NotImplemented
@@ -234,6 +256,10 @@ class BibStr(AbsVal):
             return Off(("len",), 0)
         if name in ("__deepcopy__", "__copy__"):
             return self
+        if name in ("find", "rfind", "index", "rindex"):
+            # a position found by searching the text: an offset of its own (compared with nothing the product knows)
+            key = (name,) + tuple(repr(a) for a in args)
+            return Off(("search",) + key, 0)
         return NotImplemented
 
 
